@@ -99,35 +99,52 @@ def replay_witness(rec):
 
 
 def _adversary_run(rec):
-    """real library: before each access of the caller to a shared attribute another real thread stores the recorded value"""
+    """real library: before each read / after each write of the caller to a shared attribute another real thread
+    stores the recorded value.  rec["writes"] = [kind, attribute, value, owner] with owner "algo" (the method object) or
+    the name of the class attribute holding the shared object (e.g. "positions")"""
+    import inspect
+
     from schwifty.checksum import algorithms
 
     algo = algorithms[rec["key"]]
     main = threading.current_thread()
-    writes = list(rec["writes"])
-    cls = type(algo)
+    writes = [w + ["algo"] if len(w) == 3 else w for w in rec["writes"]]
 
     def poke(obj, name):
         if threading.current_thread() is not main or not writes:
             return
-        kind, n, v = writes.pop(0)
+        kind, n, v, owner = writes.pop(0)
         t = threading.Thread(target=lambda: setattr(obj, name, v))
         t.start()
         t.join()
 
-    def make_prop(name):
+    def make_prop(cls, name):
+        static = inspect.getattr_static(cls, name, None)
+        has_desc = hasattr(static, "__get__") and hasattr(static, "__set__")  # e.g. a slot
+
         def get(self):
             poke(self, name)
-            return self.__dict__[name]
+            return static.__get__(self, type(self)) if has_desc else self.__dict__[name]
 
         def set_(self, v):
-            self.__dict__[name] = v
+            if has_desc:
+                static.__set__(self, v)
+            else:
+                self.__dict__[name] = v
             poke(self, name)
 
         return property(get, set_)
 
-    names = sorted({n for _, n, _ in rec["writes"]}) or ["remainder"]
-    sub = type(cls.__name__ + "Replay", (cls,), {n: make_prop(n) for n in names})
+    by_owner = {}
+    for _, n, _, owner in writes:
+        by_owner.setdefault(owner, set()).add(n)
+    patched = []
+    for owner, names in by_owner.items():
+        obj = algo if owner == "algo" else getattr(algo, owner)
+        cls = type(obj)
+        sub = type(cls.__name__ + "Replay", (cls,), {n: make_prop(cls, n) for n in names})
+        patched.append((obj, cls))
+        obj.__class__ = sub
 
     def call():
         try:
@@ -139,13 +156,14 @@ def _adversary_run(rec):
         except Exception as e:  # noqa: BLE001
             return ("exc", type(e).__name__)
 
-    solo = call()
-    old = algo.__class__
-    algo.__class__ = sub
+    saved = list(writes)
     try:
         conc = call()
     finally:
-        algo.__class__ = old
+        for obj, cls in patched:
+            obj.__class__ = cls
+    writes[:] = []
+    solo = call()
     return solo, conc
 
 
